@@ -3,7 +3,11 @@ props={json.loads(l)['id']:json.loads(l) for l in open('/verif/properties.jsonl'
 adv=(" Assume the property is being checked by a thorough machine: the library is compared against an independent implementation of the specification on random inputs, "
      "every length 0..300 and around every block boundary up to 4 KiB, structured boundary values (all-zero, all-ones, values around moduli and block sizes, non-canonical "
      "encodings, counters around 2^32), every call form (combined, detached, in-place, precomputed, multi-part with random splits, verify-only with NULL output), every CPU-feature "
-     "subset and a portable build, with guard pages, sanitizers, a taint tracker and a thread sanitizer. Choose a trigger that such a checker is UNLIKELY to generate: a rare "
+     "subset and a portable build, with guard pages, canaries, sanitizers, a taint tracker and a thread sanitizer; it also tries sizes whose upper 32 bits matter "
+     "(4 GiB+ inputs via sparse mappings), 1 MiB inputs, results that are special in all but one byte, differences that cancel under XOR, every character class "
+     "of every parsed field, out-of-range decimals, overlapping ignore sets, overlap distances up to 640 bytes, generator life-cycle calls (close/stir), several "
+     "signal states, several errno values of injected failures, millions of random operand pairs compared across backends, and hooks that report internal loop "
+     "positions. Choose a trigger that such a checker is UNLIKELY to generate: a rare "
      "conjunction of conditions, a very large or unusual parameter value, a rarely used entry point, option or state, a long-running or cumulative condition.")
 for k in sys.argv[1:]:
     prevs=[json.load(open(f))['needs_to_manifest'] for f in sorted(glob.glob(f'/verif/seeded/{k}-*/meta.json'))]
